@@ -194,6 +194,32 @@ class C19(PropBase):
         steps = []
         n = rng.randint(2, 14 if tier == "quick" else 40)
         slotted_known = []
+
+        def mk_cmp(c):
+            kw, kw2 = {}, {}
+            for f in c["all_fields"]:
+                has_d = "default" in f or "factory" in f
+                if not has_d or rng.random() < 0.6:
+                    kw[f["n"]] = _arg(rng, f)
+                if not has_d or rng.random() < 0.6:
+                    kw2[f["n"]] = _arg(rng, f) if rng.random() < 0.5 else kw.get(f["n"], _arg(rng, f))
+            return {"op": "cmp", "cls": c["n"], "kw": kw, "kw2": kw2}
+
+        # a whole line of descent decorated from the top down, each class rebuilt on its slotted base
+        by_name = {c["n"]: c for c in classes}
+        line = max(([c] for c in classes), key=len)
+        for c in classes:
+            cur, ln = c, [c]
+            while cur.get("base"):
+                cur = by_name[cur["base"]]
+                ln.insert(0, cur)
+            if len(ln) > len(line):
+                line = ln
+        if len(line) >= 3 and rng.random() < 0.5:
+            for c in line:
+                steps.append({"op": "slot", "cls": c["n"], "dict": rng.random() < 0.2, "weakref": rng.random() < 0.3, "rebase": True})
+                slotted_known.append(c["n"])
+            steps.append(mk_cmp(line[-1]))
         while len(steps) < n:
             r = rng.random()
             if sw.get("bad_decoration") and r < 0.15:
